@@ -302,3 +302,22 @@ Proof.
   - vm_compute. reflexivity.
   - eexists; eexists; split; vm_compute; reflexivity.
 Qed.
+
+(** ** the early termination of the sweep (C09): right of the bound nothing belongs to the result *)
+Theorem nothing_right_of_bound_intersection (a b : list Slab.ring) a0 b0 a1 b1 c0 d0 c1 d1 p :
+  (forall r v, In r a -> In v r -> in_box a0 b0 a1 b1 v) ->
+  (forall r v, In r b -> In v r -> in_box c0 d0 c1 d1 v) ->
+  (a1 < Slab.qx p \/ c1 < Slab.qx p) ->
+  inside_eo a p && inside_eo b p = false.
+Proof.
+  intros Ha Hb [H|H].
+  - rewrite (outside_box_outside_region a a0 b0 a1 b1 p Ha); [reflexivity | unfold in_box; lra].
+  - rewrite (outside_box_outside_region b c0 d0 c1 d1 p Hb); [apply andb_false_r | unfold in_box; lra].
+Qed.
+
+Theorem nothing_right_of_bound_difference (a b : list Slab.ring) a0 b0 a1 b1 p :
+  (forall r v, In r a -> In v r -> in_box a0 b0 a1 b1 v) ->
+  a1 < Slab.qx p -> inside_eo a p && negb (inside_eo b p) = false.
+Proof.
+  intros Ha H. rewrite (outside_box_outside_region a a0 b0 a1 b1 p Ha); [reflexivity | unfold in_box; lra].
+Qed.
